@@ -11,6 +11,7 @@ import MetricsVerif.Driver.GenRace
 import MetricsVerif.Driver.Layers
 import MetricsVerif.Driver.Tracing
 import MetricsVerif.Driver.Recency
+import MetricsVerif.Driver.PromIdle
 import MetricsVerif.Driver.Key
 import MetricsVerif.Driver.Cow
 import MetricsVerif.Driver.Bucket
@@ -37,6 +38,7 @@ structure DState where
   reservoir : Option MetricsVerif.Reservoir.ASR := none
   cow : Cow.DSt := {}
   recency : Option MetricsVerif.Recency.St := none
+  promidle : Option PromIdle.DSt := none
   prom : Option MetricsVerif.Prom.St := none
   layers : Option Layers.St := none
   tracing : Option Tracing.DSt := none
@@ -65,6 +67,10 @@ def step (st : DState) (line : String) : DState × String :=
   | "recency" :: args =>
     match Recency.handle st.recency args with
     | some (p, o) => ({ st with recency := p }, o)
+    | none => (st, "bad-op")
+  | "promidle" :: args =>
+    match PromIdle.handle st.promidle args with
+    | some (p, o) => ({ st with promidle := p }, o)
     | none => (st, "bad-op")
   | "cow" :: args =>
     match Cow.handle st.cow args with
